@@ -25,6 +25,16 @@ func main() {
 		verbose := fs.Bool("v", false, "verbose")
 		fs.Parse(os.Args[2:])
 		os.Exit(vc.RunCheck(vc.CheckOpts{Prop: *prop, Tier: *tier, Repo: *repo, Verif: *verif, Only: *only, Verbose: *verbose, Start: time.Now()}))
+	case "maporder":
+		// prints every range-over-map loop with the verdict of the structural rules (used to refresh the baseline)
+		p, err := vc.Load("/repo")
+		if err != nil {
+			fmt.Fprintln(os.Stderr, err)
+			os.Exit(2)
+		}
+		for _, mr := range vc.MapRanges(p) {
+			fmt.Printf("%v\t%s#%d\t%s\t%s\n", mr.OK, mr.Func, mr.Ordinal, mr.Pos, mr.Why)
+		}
 	case "why":
 		p, err := vc.Load("/repo")
 		if err != nil {
